@@ -43,6 +43,9 @@ public:
         // The whole propagation algorithm is under the lock in order to ensure correctness
         // in case of concurrent state changes at the different levels of the context tree.
         threads_list_mutex_type::scoped_lock lock(my_threads_list_mutex);
+        // A context that is being bound while the propagation is in progress re-reads its parent's state under
+        // this mutex (see task_group_context_impl::bind_to_impl), so the propagation has to hold it as well.
+        context_state_propagation_mutex_type::scoped_lock propagation_lock(the_context_state_propagation_mutex);
         // TODO: consider to use double-check idiom
         if ((src.*mptr_state).load(std::memory_order_relaxed) != new_state) {
             // Another thread has concurrently changed the state. Back down.
